@@ -5,13 +5,13 @@ copy of /repo with the change applied, bind-mounted over /repo in a private moun
 import glob, json, os, shutil, subprocess, sys, time
 from concurrent.futures import ThreadPoolExecutor
 HERE = os.path.abspath(os.path.join(os.path.dirname(os.path.abspath(__file__)), '..'))
-OUT = '/tmp/vt/matrix'
+OUT = os.environ.get('VT_MATRIX_OUT', '/tmp/vt/matrix')
 ALL = ['C%02d' % i for i in range(1, 21)]
 
 def job(d, checks):
     sid = os.path.basename(d.rstrip('/'))
     meta = json.load(open(os.path.join(d, 'meta.json')))
-    cp = '/tmp/vt/rc.%s' % sid
+    cp = '/tmp/vt/rc.%s.%d' % (sid, os.getpid())
     shutil.rmtree(cp, ignore_errors=True)
     subprocess.run(['git', 'clone', '-q', '--no-hardlinks', '/repo', cp], check=True)
     p = subprocess.run(['git', '-C', cp, 'apply', os.path.join(d, 'patch.diff')], stdout=subprocess.PIPE, stderr=subprocess.STDOUT, text=True)
